@@ -51,6 +51,9 @@ def depth(tier):
     return 4
 
 
+DEEP = 5       # thorough: additionally all closed programs of <= 5 lines over the quick alphabet
+
+
 BETWEEN = {
     'none': [],
     'addi8': [progs.I('addi', rd=8, rs1=8, imm=1)],
